@@ -15,25 +15,36 @@ RULE = ("typed random formulas over predicates, not/and/or/implies, prev/s_prev/
         "bounded and unbounded (depth<=4), variables may occur several times; traces of length 1..10; 12 re-assignments per "
         "violating case (random, all +100, all -100, all 0, each single free position flipped to +-100). distinct by (spec, data); "
         "non-trivial when violated at 0 and at least one position is not reported.")
-EXPLANATION = ("theorems: C20_sufficient_partial (on ExplFrag the positions reported by the mirror of the explainer are a sufficient "
-               "cause: every trace agreeing on them is violated at 0), C20_satisfied_empty. Correspondence: reported positions of "
-               "the real explainer vs the mirror; sufficiency tested on the real evaluator under adversarial re-assignment.")
-ASSUMPTIONS = ["partial: fragment ExplFrag (no since/until — the explainer raises on them —, no iff/xor, no rise/fall)"]
+EXPLANATION = ("theorems (Lean, mirror of the explainer after the fix: commits): C20_sufficient_partial (on the fragment explFrag, for values with "
+               "neg 0 = 0: every trace agreeing with the original on the positions reported for a specification violated at 0 is "
+               "violated at 0) via the monotone invariant C20_mono / C20_invariant_partial over well-formed interval lists; "
+               "C20_satisfied_empty; C20_defined_on_fragment; refutations of the naive invariants (C20_invariant_false_zero, "
+               "C20_invariant_false_unsorted, C20_sufficient_partial_false). Correspondence: positions reported by the real explainer vs "
+               "the mirror; sufficiency tested on the real evaluator under adversarial re-assignment of the non-reported positions.")
+ASSUMPTIONS = ["partial: fragment explFrag (no since/until/precedes - the explainer raises on them -, no rise/fall); iff/xor: known finding F40",
+               "interval_union (merging of interval lists) is not mirrored: the model keeps un-merged lists and position sets are compared"]
 VARS = ["a", "b"]
 ALLOW = {"arith", "cmp", "bool", "not", "past_nr", "future", "ufuture", "bpast", "bfuture"}
-REGIONS = {}
 
 
 class EGen(F.Gen):
+    """Formulas of the explainer's fragment. Connectives are frequent (the propagation rules differ per connective and
+    polarity, and the same variable reached along several paths exercises the union of interval lists)."""
+
+    def pred(self):
+        r = self.r
+        if r.random() < 0.6:
+            return ("b", r.choice(F.CMP), ("v", r.choice(self.vars)), ("c", r.choice(self.consts)))
+        return ("b", r.choice(F.CMP), self.term(1), self.term(0))
+
     def formula(self, d):
         r = self.r
-        groups = ["bool", "not", "past", "future", "ufuture", "bpast", "bfuture"] if d > 0 else []
-        if not groups or r.random() < 0.25:
-            return ("b", r.choice(F.CMP), self.term(min(d, 1)), self.term(0))
-        g = r.choice(groups)
+        if d <= 0 or r.random() < 0.12:
+            return self.pred()
+        g = r.choice(["bool", "bool", "bool", "not", "past", "future", "ufuture", "ufuture", "bpast", "bfuture", "bfuture"])
         sub = lambda: self.formula(d - 1)  # noqa: E731
         if g == "bool":
-            return ("b", r.choice(["and", "or", "implies"]), sub(), sub())
+            return ("b", r.choice(["and", "or", "implies"] + (["iff", "xor"] if self.iffxor else [])), sub(), sub())
         if g == "not":
             return ("u", "not", sub())
         if g == "past":
@@ -46,6 +57,52 @@ class EGen(F.Gen):
         if g == "bpast":
             return ("tb1", r.choice(["once", "hist"]), a, b, sub())
         return ("tb1", r.choice(["ev", "alw"]), a, b, sub())
+
+
+CONNECTIVES = [("b", "and"), ("b", "or"), ("b", "implies"), ("u", "not"), ("t1", "prev"), ("t1", "sprev"), ("t1", "next"), ("t1", "snext"),
+               ("t1", "once"), ("t1", "hist"), ("t1", "ev"), ("t1", "alw"), ("tb1", "once"), ("tb1", "hist"), ("tb1", "ev"), ("tb1", "alw")]
+
+
+def build(rng, g, op, kids):
+    if op[0] == "b":
+        return ("b", op[1], kids(), kids())
+    if op[0] in ("u", "t1"):
+        return (op[0], op[1], kids())
+    a, b = g.bounds()
+    return ("tb1", op[1], a, b, kids())
+
+
+def gen_pair(rng, g, i):
+    """Systematic stream: every (parent rule, child rule) combination under both polarities."""
+    par = CONNECTIVES[i % len(CONNECTIVES)]
+    chi = CONNECTIVES[(i // len(CONNECTIVES)) % len(CONNECTIVES)]
+    inner = lambda: build(rng, g, chi, g.pred)  # noqa: E731
+    f = build(rng, g, par, lambda: inner() if rng.random() < 0.7 else g.pred())
+    k = (i // (len(CONNECTIVES) ** 2)) % 3
+    if k == 1:
+        f = ("u", "not", f)
+    elif k == 2:
+        f = ("b", rng.choice(["and", "or", "implies"]), f, build(rng, g, rng.choice(CONNECTIVES), g.pred))
+    return f
+
+
+def gen_data(rng, vs, n):
+    mode = rng.choice(["random", "random", "const", "two", "ramp"])
+    if mode == "random":
+        return F.gen_trace(rng, vs, n, vals=(-2.0, -1.0, 0.0, 1.0, 2.0, 3.0))
+    out = {}
+    for v in vs:
+        if mode == "const":
+            c = rng.choice([-2.0, 0.0, 1.0, 3.0])
+            out[v] = [c] * n
+        elif mode == "two":
+            k = rng.randint(0, n)
+            lo, hi = rng.choice([(-2.0, 3.0), (3.0, -2.0), (0.0, 1.0), (1.0, 0.0)])
+            out[v] = [lo] * k + [hi] * (n - k)
+        else:
+            s = rng.choice([-1.0, 1.0])
+            out[v] = [s * (t - n // 2) for t in range(n)]
+    return out
 
 
 def evaluate_and_explain(text, vs, data, n):
@@ -123,6 +180,14 @@ def check_case(ctx, f, data, n, rng):
     for p in free[:8]:
         for val in (100.0, -100.0):
             trials.append({p: val})
+    # values that can make two sub-formulas exactly equal (iff/xor, ==): drawn from the data and the constants of the formula
+    pool = sorted({x for v in vs for x in data[v]} | {c[1] for c in F.subformulas(f) if c[0] == "c"})
+    pool = sorted(set(pool) | {-x for x in pool})
+    for _ in range(6):
+        trials.append({p: rng.choice(pool) for p in free})
+    for p in free[:4]:
+        for val in pool[:6]:
+            trials.append({p: val})
     for tr in trials:
         d2 = {v: list(data[v]) for v in vs}
         for (v, t), val in tr.items():
@@ -140,12 +205,33 @@ def check_case(ctx, f, data, n, rng):
     return None
 
 
+def in_iffxor(case):
+    return any(o in ("b:iff", "b:xor") for o in F.ops(case["f"]))
+
+
+REGIONS = {"iffxor": in_iffxor}
+
+
 def explore(ctx, rng, count):
-    for _ in range(count):
-        g = EGen(rng, VARS, ALLOW, max_bound=rng.choice([1, 2, 3]), consts=(0.0, 1.0, 2.0))
-        f = g.formula(rng.choice([1, 2, 3, 4]))
-        n = rng.randint(1, 10)
-        data = F.gen_trace(rng, F.variables(f) or ["a"], n, vals=(-2.0, -1.0, 0.0, 1.0, 2.0, 3.0))
+    for i in range(count):
+        nv = rng.choice([1, 1, 2])
+        g = EGen(rng, VARS[:nv], ALLOW, max_bound=rng.choice([1, 2, 3, 5]), consts=(0.0, 1.0, 2.0))
+        g.iffxor = rng.random() < 0.4
+        if i % 2 == 0:
+            f = gen_pair(rng, g, i // 2 + ctx.seed * 7919)
+            ctx.count("gen:pairs")
+        else:
+            f = g.formula(rng.choice([2, 3, 4]))
+            ctx.count("gen:random")
+        n = rng.randint(1, 12)
+        data = gen_data(rng, F.variables(f) or ["a"], n)
+        if disc.known_region(ctx, {"f": f}, REGIONS):
+            ctx.skipped_known += 1
+            continue
+        for o in F.ops(f):
+            if o[:2] in ("b:", "u:", "t1", "tb") and o.split(":")[1] in ("and", "or", "implies", "not", "iff", "xor", "prev", "sprev", "next", "snext",
+                                                                        "once", "hist", "ev", "alw"):
+                ctx.count("op:" + o)
         ctx.evaluations += 1
         v = check_case(ctx, f, data, n, rng)
         if v is None:
@@ -177,8 +263,8 @@ def replay(ctx, obj):
 
 
 def run(ctx):
-    explore(ctx, ctx.subrng("expl"), ctx.budget(300, 5000))
+    explore(ctx, ctx.subrng("expl"), ctx.budget(1600, 20000))
 
 
 def search(ctx):
-    explore(ctx, ctx.subrng("search"), ctx.budget(800, 5000))
+    explore(ctx, ctx.subrng("search"), ctx.budget(3000, 20000))
